@@ -269,9 +269,9 @@ Qed.
 
 Definition ptabm (pos : N) : nat := N.to_nat ((8 - pos mod 8) mod 8).
 
-Lemma tab_true : forall k f b pos,
+Lemma tab_true tw fl : forall k f b pos,
   ptabm pos = k -> (k <= f)%nat -> pos + N.of_nat k <= wwidth b ->
-  tab_loop f b t1 pos true = Ok (set_line b (pushl k (wline b))).
+  tab_loop f b t1 tw pos true fl = Ok (set_line b (pushl k (wline b)), fl).
 Proof.
   induction k as [|k IH]; intros f b pos Hk Hf Hw.
   - assert (Hz : pos mod 8 = 0) by (unfold ptabm in Hk; lia).
@@ -287,16 +287,17 @@ Proof.
     rewrite (IH f _ (pos + 1) Hk'); [reflexivity | lia | cbn [set_line wwidth]; lia].
 Qed.
 
-Lemma tab_false f b pos :
+Lemma tab_false tw fl f b pos :
   (8 <= f)%nat -> pos + (8 - pos mod 8) <= wwidth b ->
-  tab_loop f b t1 pos false = Ok (set_line b (pushl (N.to_nat (8 - pos mod 8)) (wline b))).
+  tab_loop f b t1 tw pos false fl =
+  Ok (set_line b (pushl (N.to_nat (8 - pos mod 8)) (wline b)), fl).
 Proof.
   intros Hf Hw. destruct f as [|f]; [lia|].
   cbn [tab_loop]. rewrite orb_true_r.
   destruct (N.eqb_spec (wwidth b) 0) as [|_]; [lia|].
   destruct (N.leb_spec (wwidth b) pos) as [|_]; [lia|].
   assert (E : N.to_nat (8 - pos mod 8) = S (ptabm (pos + 1))) by (unfold ptabm; lia).
-  rewrite (tab_true (ptabm (pos + 1)) f _ (pos + 1) eq_refl).
+  rewrite (tab_true tw fl (ptabm (pos + 1)) f _ (pos + 1) eq_refl).
   - rewrite E. reflexivity.
   - unfold ptabm. lia.
   - cbn [set_line wwidth]. unfold ptabm. lia.
@@ -423,7 +424,7 @@ Proof.
       assert (Epos : tlen_ (wline b') + wslen b' = swidth (expand p 0)) by lia.
       rewrite Epos.
       rewrite tab_false; [| lia | lia].
-      cbn [bind]. eexists. split; [reflexivity|]. split; [exact Htx|].
+      cbn [bind is_pre fst snd andb orb]. eexists. split; [reflexivity|]. split; [exact Htx|].
       constructor; prjs; try assumption.
       * rewrite Eexp, expand1. destruct (N.eqb_spec (cp c) 9) as [_|]; [|contradiction].
         rewrite pushl_string, Hstr, !app_nil_r, <- !app_assoc. f_equal. apply rep_comm.
@@ -749,7 +750,7 @@ Proof.
     + rewrite swidth_rep in *.
       assert (Epos : tlen_ (wline b') + wslen b' = col) by lia. rewrite Epos.
       rewrite tab_false; [| lia | lia].
-      cbn [bind]. eexists. split; [reflexivity|].
+      cbn [bind is_pre fst snd andb orb]. eexists. split; [reflexivity|].
       constructor; prjs; try assumption.
       * rewrite pushl_tlen. lia.
       * apply pushl_tagged, Htagl.
